@@ -127,3 +127,151 @@ Theorem C03_ext_oer_newer_sender : forall tg root adds rvs avs bs rest k,
   ext_oer_dec (truncate_ty k (ESeq tg root adds)) (bs ++ rest) = Some (truncate_val k (EVSeq rvs avs), rest).
 Proof. exact ext_oer_forward_compat. Qed.
 Print Assumptions C03_ext_oer_newer_sender.
+
+
+(* ===================================================================== *)
+(* Tag-to-member maps (coq/Rt/TagMap.v, TagMapProofs.v): the sorted table asn1c emits for every SEQUENCE, SET and
+   CHOICE, searched by the BER decoders with bsearch().  For a SEQUENCE the comparison function accepts EVERY entry
+   that carries the tag at or after the current member, so the library may return any of them; the decoder rewinds
+   to the first entry with the tag (toff_first), scans to the last (toff_last), skips entries before the current
+   member and stops beyond the members that may come next.  [wf_mapb] is what the compiler must emit (evaluated by
+   checks/c03.py on every generated table); [sole_in_window] is X.680's distinct-tags rule for a run of OPTIONAL
+   members and the member after it. *)
+From Coq Require Import Arith.
+From A1 Require Import Rt.TagMap Rt.TagMapProofs.
+
+Theorem C03_bsearch_returns_an_accepted_entry : forall cmp m p, bsearch cmp m = Some p ->
+  exists e, nth_error m p = Some e /\ cmp e = Eq.
+Proof. exact bsearch_sound. Qed.
+Print Assumptions C03_bsearch_returns_an_accepted_entry.
+
+Theorem C03_bsearch_finds_an_accepted_entry : forall cmp m, mono cmp m ->
+  (exists i e, nth_error m i = Some e /\ cmp e = Eq) -> exists p, bsearch cmp m = Some p.
+Proof. exact bsearch_complete. Qed.
+Print Assumptions C03_bsearch_finds_an_accepted_entry.
+
+Theorem C03_sorted_map_is_ordered_for_sequence_keys : forall tag edx m, sortedb m = true -> mono (seq_cmp tag edx) m.
+Proof. exact seq_cmp_mono. Qed.
+Print Assumptions C03_sorted_map_is_ordered_for_sequence_keys.
+
+Theorem C03_sorted_map_is_ordered_for_tag_keys : forall tag m, sortedb m = true -> mono (tag_only_cmp tag) m.
+Proof. exact tag_only_cmp_mono. Qed.
+Print Assumptions C03_sorted_map_is_ordered_for_tag_keys.
+
+(* the rewind: from ANY entry with a tag, toff_first .. toff_last are all the entries with that tag *)
+Theorem C03_tagmap_rewind_reaches_every_entry_of_the_tag : forall m p e, wf_mapb m = true -> nth_error m p = Some e ->
+  slice m (Z.of_nat p + toff_first e) (Z.of_nat p + toff_last e) = Some (filter (same_tag e) m).
+Proof. exact wf_slice. Qed.
+Print Assumptions C03_tagmap_rewind_reaches_every_entry_of_the_tag.
+
+(* every probe position gives the member the specification names *)
+Theorem C03_tagmap_lookup_for_every_probe : forall m p e tag edx edx_max,
+  wf_mapb m = true -> nth_error m p = Some e -> el_tag e = tag ->
+  seq_pick m p edx edx_max = of_opt (spec_pick m tag edx edx_max).
+Proof. exact seq_pick_any_probe. Qed.
+Print Assumptions C03_tagmap_lookup_for_every_probe.
+
+Theorem C03_tagmap_lookup_probe_independent : forall m p q e e' edx edx_max,
+  wf_mapb m = true -> nth_error m p = Some e -> nth_error m q = Some e' -> el_tag e = el_tag e' ->
+  seq_pick m p edx edx_max = seq_pick m q edx edx_max.
+Proof. exact seq_pick_probe_independent. Qed.
+Print Assumptions C03_tagmap_lookup_probe_independent.
+
+(* ... and that member is the first one at or after edx that carries the tag *)
+Theorem C03_tagmap_lookup_first_member : forall m tag edx edx_max k p e,
+  wf_mapb m = true -> sole_in_window m tag edx edx_max k ->
+  nth_error m p = Some e -> seq_cmp tag edx e = Eq ->
+  seq_pick m p edx edx_max = PSome k.
+Proof. exact seq_pick_first. Qed.
+Print Assumptions C03_tagmap_lookup_first_member.
+
+Theorem C03_tagmap_sole_member_is_the_first : forall m tag edx edx_max k, sole_in_window m tag edx edx_max k ->
+  forall x, In x m -> el_tag x = tag -> (edx <= el_no x)%nat -> (k <= el_no x)%nat.
+Proof. exact sole_is_first. Qed.
+Print Assumptions C03_tagmap_sole_member_is_the_first.
+
+(* the whole search of SEQUENCE_decode_ber: linear part over at most 8 members, then the map *)
+Theorem C03_sequence_member_search : forall els m edx tag opt t0 k,
+  wf_mapb m = true -> els_map_ok els m -> 0 <= tag ->
+  nth_error els edx = Some (t0, opt) -> (k < length els)%nat ->
+  sole_in_window m tag edx (edx + opt) k ->
+  seq_find els m edx tag = Some k.
+Proof. exact seq_find_correct. Qed.
+Print Assumptions C03_sequence_member_search.
+
+(* SET_decode_ber / CHOICE_decode_ber *)
+Theorem C03_set_choice_member_search : forall m tag k,
+  sortedb m = true -> (exists e, In e m /\ el_tag e = tag) ->
+  (forall x, In x m -> el_tag x = tag -> el_no x = k) ->
+  tag_find m tag = Some k.
+Proof. exact tag_find_correct. Qed.
+Print Assumptions C03_set_choice_member_search.
+
+(* the scan that starts at the probed entry (seeded/C03-4) depends on the probe: on the table of that change's demo
+   type the library's bsearch() returns entry 1, from which the member is not found *)
+Theorem C03_tagmap_scan_without_rewind_refuted :
+  wf_mapb demo_map = true /\
+  bsearch (seq_cmp 8 0) demo_map = Some 1%nat /\
+  seq_pick demo_map 1 0 1 = PSome 1%nat /\
+  seq_pick_norewind demo_map 1 1 = PNone /\
+  seq_pick_norewind demo_map 0 1 = PSome 1%nat.
+Proof. exact norewind_refuted. Qed.
+Print Assumptions C03_tagmap_scan_without_rewind_refuted.
+
+(* ===================================================================== *)
+(* OER: every legal form of every length determinant (coq/Rt/OerVariants.v, OerVariantsProofs.v).  [oer_var] /
+   [ext_oer_var] write a value with the form the oracle picks at each determinant position; [oer_cdec] /
+   [ext_oer_cdec] are the decoders of the C with oer_fetch_length at every position. *)
+From A1 Require Import Rt.OerProofs Rt.OerVariants Rt.OerVariantsProofs.
+
+Theorem C03_oer_long_form_length_read_back : forall k n r, olong_ok k n = true -> 0 <= n <= rssize_max ->
+  oer_fetch_length ((128 + Z.of_nat k) :: be_bytes k n ++ r) = Some (n, r).
+Proof. exact oer_fetch_length_long. Qed.
+Print Assumptions C03_oer_long_form_length_read_back.
+
+Theorem C03_oer_any_length_form_read_back : forall lf n r, 0 <= n <= rssize_max ->
+  oer_fetch_length (oer_len_var lf n ++ r) = Some (n, r).
+Proof. exact oer_fetch_length_var. Qed.
+Print Assumptions C03_oer_any_length_form_read_back.
+
+Theorem C03_oer_any_quantity_form_read_back : forall lf z n r, (z <= 255)%nat -> 0 <= n <= rssize_max ->
+  oer_fetch_quantity (oer_qty_var lf z n ++ r) = Some (n, r).
+Proof. exact oer_fetch_quantity_var. Qed.
+Print Assumptions C03_oer_any_quantity_form_read_back.
+
+Theorem C03_oer_complete_stream : forall t oc v bs rest,
+  wf_ty_oer t = true -> not_opt t = true -> wt_oer t v = true -> oer_var t oc v = Some bs ->
+  oer_cdec t (bs ++ rest) = Some (v, rest).
+Proof. exact oer_complete. Qed.
+Print Assumptions C03_oer_complete_stream.
+
+Theorem C03_oer_complete : forall t oc v bs,
+  wf_ty_oer t = true -> not_opt t = true -> wt_oer t v = true -> oer_variant oc t v = Some bs ->
+  oer_cdecode t bs = Some (v, zlen bs).
+Proof. exact oer_complete_decode. Qed.
+Print Assumptions C03_oer_complete.
+
+(* extensible SEQUENCE / CHOICE: the length of the extension presence bitmap and of every open type as well *)
+Theorem C03_ext_oer_complete_stream : forall t oc v bs rest,
+  wf_ety_oer t = true -> wt_ety_oer_var t v -> ext_oer_var t oc v = Some bs ->
+  ext_oer_cdec t (bs ++ rest) = Some (v, rest).
+Proof. exact ext_oer_complete. Qed.
+Print Assumptions C03_ext_oer_complete_stream.
+
+Theorem C03_ext_oer_complete : forall t oc v bs,
+  wf_ety_oer t = true -> wt_ety_oer_var t v -> ext_oer_var t oc v = Some bs ->
+  ext_oer_cdecode t bs = Some (v, zlen bs).
+Proof. exact ext_oer_complete_decode. Qed.
+Print Assumptions C03_ext_oer_complete.
+
+(* the canonical encoding is the member of the family with the canonical choices *)
+Theorem C03_oer_canonical_is_a_variant : forall t v, oer_var t ch_canon v = oer t v.
+Proof. exact oer_var_canon. Qed.
+Print Assumptions C03_oer_canonical_is_a_variant.
+
+(* the decoder parametrised by the two readers of lengths is the shared reference decoder Rt/Oer.v:oer_dec when given that
+   decoder's readers: oer_cdec differs from it in oer_fetch_length / oer_fetch_quantity (the C's readers) only *)
+Theorem C03_oer_c_decoder_differs_in_length_readers_only : forall t bs,
+  oer_dec_g oer_get_length oer_get_quantity t bs = oer_dec t bs.
+Proof. exact oer_dec_g_ref. Qed.
+Print Assumptions C03_oer_c_decoder_differs_in_length_readers_only.
